@@ -107,7 +107,7 @@ StreamReact(v, r) ==
 
 ConnReact(v) ==
   CASE v \in {"D_zero", "H_zero", "R_zero", "R_badlen", "S_iwsbig", "S_badlen", "S_ackpayload", "P_badlen", "P_onstream",
-              "W_zeroconn", "C_cont", "H_noend", "X_close"} -> "connerr"
+              "G_even", "W_zeroconn", "C_cont", "H_noend", "X_close"} -> "connerr"
     [] v \in {"G_max", "G_0", "G_1", "G_calm"} -> "goaway"
     [] OTHER -> "none"
 
@@ -116,9 +116,9 @@ Term(r, c) == /\ st' = [st EXCEPT ![r] = "done"]
 
 \* connection error: every RPC with a stream on this connection fails UNAVAILABLE
 ConnErr == /\ conn' = "dead"
-           /\ st' = [r \in 1..2 |-> IF OnConn(r) /\ r \in Rpcs THEN "done" ELSE st[r]]
-           /\ code' = [r \in 1..2 |-> IF OnConn(r) /\ r \in Rpcs
-                                        THEN (IF st[r] \in {"unk"} THEN AnyCode ELSE 14) ELSE code[r]]
+           \* (an RPC whose reaction is no longer predicted may have moved to another connection: left as it is)
+           /\ st' = [r \in 1..2 |-> IF OnConn(r) /\ r \in Rpcs /\ st[r] # "unk" THEN "done" ELSE st[r]]
+           /\ code' = [r \in 1..2 |-> IF OnConn(r) /\ r \in Rpcs /\ st[r] # "unk" THEN 14 ELSE code[r]]
            /\ UNCHANGED <<ngc, msgs, prevGA>>
 
 GoAwayLast(v) == CASE v = "G_max" -> Big [] v = "G_1" -> 1 [] OTHER -> 0
@@ -126,13 +126,30 @@ GoAway(v) ==
   LET id == GoAwayLast(v)
       upper == IF prevGA = 0 THEN Big + 1 ELSE prevGA
       hit(r) == r \in Rpcs /\ OnConn(r) /\ Sid(r) > id /\ Sid(r) <= upper
-  IN IF conn = "drain" /\ id > prevGA THEN UNCHANGED <<conn, st, code, ngc, msgs, prevGA>>   \* rejected (the error only surfaces when the reader exits)
+  IN IF conn = "drain" /\ id > prevGA THEN ConnErr      \* a later GOAWAY may not raise the last-stream-id: connection error
      ELSE /\ prevGA' = id
           \* streams above the last-stream-id were not processed: transparently retried on another connection (not predicted further)
           /\ st' = [r \in 1..2 |-> IF hit(r) THEN "unk" ELSE st[r]]
           \* nothing left on this connection: the client closes it
           /\ conn' = IF \A r \in Rpcs : ~OnConn(r) \/ hit(r) THEN "dead" ELSE "drain"
           /\ UNCHANGED <<code, ngc, msgs>>
+
+\* apply the reaction x = <<kind, code>> of RPC r
+ApplyStream(x, r) ==
+  CASE x[1] = "connerr" -> ConnErr
+    [] x[1] = "term" -> Term(r, x[2]) /\ UNCHANGED <<conn, ngc, msgs, prevGA>>
+    [] x[1] = "hdr" -> st' = [st EXCEPT ![r] = "hdr"] /\ UNCHANGED <<conn, code, ngc, msgs, prevGA>>
+    [] x[1] = "ng" -> st' = [st EXCEPT ![r] = "ng"] /\ ngc' = [ngc EXCEPT ![r] = x[2]]
+                      /\ UNCHANGED <<conn, code, msgs, prevGA>>
+    [] x[1] = "msg" -> /\ msgs' = [msgs EXCEPT ![r] = IF @ < 2 THEN @ + 1 ELSE @]
+                       \* a second message on the unary RPC is a cardinality violation: code not predicted
+                       /\ st' = [st EXCEPT ![r] = IF r = 1 /\ msgs[r] >= 1 THEN "unk" ELSE @]
+                       /\ UNCHANGED <<conn, code, ngc, prevGA>>
+    \* REFUSED_STREAM: transparent retry on a new stream (the server stays silent on it): not predicted further
+    [] x[1] = "retry" -> st' = [st EXCEPT ![r] = "unk"] /\ UNCHANGED <<conn, code, ngc, msgs, prevGA>>
+    [] x[1] = "unk" -> st' = [st EXCEPT ![r] = "unk"] /\ UNCHANGED <<conn, code, ngc, msgs, prevGA>>
+    [] OTHER -> UNCHANGED <<conn, st, code, ngc, msgs, prevGA>>
+OneStatusObs == viol' = IF viol = "none" /\ \E q \in Rpcs : code[q] # Running /\ code'[q] # code[q] THEN "I_OneStatus" ELSE viol
 
 Frame(v, r) ==
   /\ conn # "dead" /\ ~expired
@@ -142,23 +159,41 @@ Frame(v, r) ==
                  CASE k = "connerr" -> ConnErr
                    [] k = "goaway" -> GoAway(v)
                    [] OTHER -> UNCHANGED <<conn, st, code, ngc, msgs, prevGA>>
-       ELSE /\ v \in StreamV /\ r \in Rpcs
-            /\ LET x == StreamReact(v, r) IN
-                 CASE x[1] = "connerr" -> ConnErr
-                   [] x[1] = "term" -> Term(r, x[2]) /\ UNCHANGED <<conn, ngc, msgs, prevGA>>
-                   [] x[1] = "hdr" -> st' = [st EXCEPT ![r] = "hdr"] /\ UNCHANGED <<conn, code, ngc, msgs, prevGA>>
-                   [] x[1] = "ng" -> st' = [st EXCEPT ![r] = "ng"] /\ ngc' = [ngc EXCEPT ![r] = x[2]]
-                                     /\ UNCHANGED <<conn, code, msgs, prevGA>>
-                   [] x[1] = "msg" -> /\ msgs' = [msgs EXCEPT ![r] = IF @ < 2 THEN @ + 1 ELSE @]
-                                      \* a second message on the unary RPC is a cardinality violation: code not predicted
-                                      /\ st' = [st EXCEPT ![r] = IF r = 1 /\ msgs[r] >= 1 THEN "unk" ELSE @]
-                                      /\ UNCHANGED <<conn, code, ngc, prevGA>>
-                   \* REFUSED_STREAM: transparent retry on a new stream (the server stays silent on it): not predicted further
-                   [] x[1] = "retry" -> st' = [st EXCEPT ![r] = "unk"] /\ UNCHANGED <<conn, code, ngc, msgs, prevGA>>
-                   [] x[1] = "unk" -> st' = [st EXCEPT ![r] = "unk"] /\ UNCHANGED <<conn, code, ngc, msgs, prevGA>>
-                   [] OTHER -> UNCHANGED <<conn, st, code, ngc, msgs, prevGA>>
+       ELSE /\ v \in StreamV /\ r \in Rpcs /\ ApplyStream(StreamReact(v, r), r)
   /\ UNCHANGED <<nrpc, expired>>
-  /\ viol' = IF viol = "none" /\ \E q \in Rpcs : code[q] # Running /\ code'[q] # code[q] THEN "I_OneStatus" ELSE viol
+  /\ OneStatusObs
+
+\* ---- HEADERS frames whose one adversarial header VALUE is chosen by TLC (values are sequences of fragments)
+MsgFrag == {"a", "%20", "%2", "%", "%ZZ", "xff", "%e4%bd"}       \* "xff" stands for the byte 0xFF
+SeqsUpTo(S, n) == UNION {[1..k -> S] : k \in 1..n}
+MsgVals == SeqsUpTo(MsgFrag, 3)                                    \* truncated escapes at the end and in the middle
+StatusVals == {<<"">>, <<"abc">>, <<"-1">>, <<"99999999999">>, <<" 5">>}
+DetailVals == {<<"undecodable">>, <<"garbage">>, <<"mismatch">>}  \* not base64 / base64 of non-proto bytes / Status proto with another code
+CtVals == {<<"application/grpc+proto">>, <<"application/grpc;x">>, <<"application/grpcx">>, <<"APPLICATION/GRPC">>, <<"">>}
+ValK == {"V_tmsg", "V_hmsg", "V_tstatus", "V_tdetails", "V_tct"}
+ValSet(k) == CASE k = "V_tmsg" -> MsgVals [] k = "V_hmsg" -> MsgVals [] k = "V_tstatus" -> StatusVals
+               [] k = "V_tdetails" -> DetailVals [] OTHER -> CtVals
+\*  V_tmsg      trailers (END_STREAM), grpc-status 5, grpc-message = val
+\*  V_hmsg      response headers (no END_STREAM) carrying grpc-message = val
+\*  V_tstatus   trailers, grpc-status = val
+\*  V_tdetails  trailers, grpc-status 5, grpc-status-details-bin = val
+\*  V_tct       trailers, :status 200, content-type = val, grpc-status 5
+ValReact(k, val, r) ==
+  LET s == st[r]
+      ngOr(x) == IF s = "ng" THEN <<"term", ngc[r]>> ELSE x
+  IN IF s = "unk" THEN <<"unk", 0>>
+     ELSE IF ~Live(r) THEN <<"none", 0>>
+     ELSE CASE k = "V_tmsg" -> ngOr(<<"term", 5>>)
+            [] k = "V_hmsg" -> IF s = "open" THEN <<"hdr", 0>> ELSE IF s = "ng" THEN <<"none", 0>> ELSE <<"term", 13>>
+            [] k = "V_tstatus" -> ngOr(IF val = <<"-1">> THEN <<"term", AnyCode>> ELSE <<"term", 2>>)
+            [] k = "V_tdetails" -> ngOr(IF val = <<"garbage">> THEN <<"term", 5>> ELSE <<"term", 13>>)
+            [] OTHER -> IF val \in {<<"application/grpc+proto">>, <<"application/grpc;x">>} \/ s = "hdr"
+                          THEN ngOr(<<"term", 5>>) ELSE ngOr(<<"term", 2>>)
+ValFrame(k, val, r) ==
+  /\ conn # "dead" /\ ~expired /\ k \in ValK /\ r \in Rpcs
+  /\ ApplyStream(ValReact(k, val, r), r)
+  /\ UNCHANGED <<nrpc, expired>>
+  /\ OneStatusObs
 
 \* the deadlines pass: whatever is still running ends (DEADLINE_EXCEEDED unless the state was not predictable)
 Expire == /\ ~expired /\ expired' = TRUE
